@@ -26,6 +26,12 @@ Definition is_void (r : sres) : bool := match r with Void => true | _ => false e
 Definition samples_of (rs : list sres) : list sample :=
   flat_map (fun r => match r with WithSample sm => [sm] | _ => [] end) rs.
 
+(* no node lists the same child twice (remove_unneeded removes a child's sample once per
+   occurrence: a repeated child makes the second `expect("Sample does not exist!")` fail) *)
+Fixpoint nodup_nat (l : list nat) : bool :=
+  match l with [] => true | x :: r => negb (existsb (Nat.eqb x) r) && nodup_nat r end.
+Definition nodup_children (C : circuit) : bool := forallb (fun nd => nodup_nat (children nd)) C.
+
 Section Sampler.
   Variable d : ddnnf.
   Variable t : nat.
